@@ -109,6 +109,7 @@ func body() {
 	add("crashconc", nCrashConc, func(i int, id string, s int64) { runCrashConc(id, s, []int{12, 32, 4, 16}[i%4], root) })
 	add("crash", nCrash, func(i int, id string, s int64) { runCrash(id, s, root, r.Thorough()) })
 	add("closedrain", envInt("C04_NCLOSEDRAIN", r.Pick(12, 100)), func(i int, id string, s int64) { runProcCloseDuringDrain(id, s, root) })
+	add("svc-empty", envInt("C04_NSVCEMPTY", r.Pick(10, 60)), func(i int, id string, s int64) { runSvcEmpty(id, s, root) })
 	add("proc", nProc, func(i int, id string, s int64) { runProcSmall(id, s, root) })
 	add("seq", nSeq, func(i int, id string, s int64) { runSeq(id, s, root) })
 
